@@ -8,12 +8,16 @@
 //   I traj  <method> <rhs...> t0 y0 h nsteps              fixed step (setFixedStepSize), every internal step returned
 //   O traj  t_k y_k ... for each step                     -> model replays the whole trajectory
 //   I vstep <method> <useInf> <rhs...> acc t0 y0 hcur tMax umin umax
-//   O vstep t1 y1 hLast hNext nFail                       -> one call of takeOneStep incl. error norm, adjustStepSize, retries
-//   I herm  ny t0 y0 f0 t1 y1 f1 t     O herm y(t)        -> interpolateOrder3 as used by createInterpolatedState
-//   I lin   ny t0 y0 t1 y1 t           O lin  y(t)        -> linear interpolation of the Euler variants
+//   O vstep t1 y1 hLast hNext nFail                       -> one call of takeOneStep: attemptDAEStep, calcErrorNorm (RMS/inf,
+//                                                            relative scaling), adjustStepSize, retries, user limits, tMax limiting
+//   I istep <method> <useInf> <rhs...> acc t0 y0 hcur umin umax tReport
+//   O istep tAdv yAdv tReturned yReturned nSteps          -> steps until tReport is passed, then createInterpolatedState
+//                                                            (interpolateOrder3; linear for the Euler variants)
+//   I acc ladder|order|interp <method> <problem...>       implementation-only records (O acc 1) carrying the P lines
 //   <rhs...> = kind nq nz deg M[ny*ny] C[ny*(deg+1)]      (kind 0 = lin, 1 = pend with M[0] = g)
-// P lines (implementation only): global error vs accuracy ladders, monotonicity under tightening, fixed-step
-// convergence orders, accuracy of interpolated report states.
+// P lines: global error / accuracy (and per step), tightening accuracy x100 never makes it worse, fixed-step
+// convergence order vs Integrator::getMethodMinOrder(), interpolated report states vs the step states around them.
+// --mode replay re-runs exactly the I lines read from stdin (every record carries all its inputs).
 #include "SimTKcommon.h"
 #include "SimTKmath.h"
 #include "SimTKcommon/internal/SystemGuts.h"
@@ -98,7 +102,6 @@ public:
 };
 
 // ------------------------------------------------------------------------------------------ integrators
-static const char* METHODS[] = {"merson", "rkf", "rk3", "rk2", "euler", "see2", "see", "verlet", "cpodes_bdf", "cpodes_adams"};
 static std::unique_ptr<Integrator> makeInteg(const std::string& m, const System& sys) {
     if (m == "merson") return std::unique_ptr<Integrator>(new RungeKuttaMersonIntegrator(sys));
     if (m == "rkf") return std::unique_ptr<Integrator>(new RungeKuttaFeldbergIntegrator(sys));
@@ -128,7 +131,6 @@ struct Setup {
     std::string method; int useInf = 0; Rhs rhs; double acc = 1e-3, t0 = 0; std::vector<double> y0;
     double hinit = -1, tFinal = Infinity, umin = -1, umax = -1;
 };
-static bool linearInterp(const std::string& m) { return m == "euler" || m == "see" || m == "see2"; }
 static std::unique_ptr<Integrator> start(const Setup& S, OdeSystem& sys, bool everyStep = true) {
     State s = initialState(sys, S.t0, S.y0);
     std::unique_ptr<Integrator> integ = makeInteg(S.method, sys);
